@@ -135,6 +135,10 @@ def build_jobs(tier: str) -> list:
             q['Time steps per year'] = rng.choice([1, 2, 3, 4, 6, 12])
         if rng.random() < 0.3:
             q['Production Wellhead Pressure'] = gen.fmt(rng.uniform(100, 3000))
+        elif k % 2 == 0 and rng.random() < 0.4:
+            # an overpressured reservoir (pump setting depth negative) whose user-set wellhead pressure still makes the pumps work
+            q['Production Wellhead Pressure'] = gen.fmt(rng.uniform(3000, 9000))
+            q['Overpressure Percentage'] = gen.fmt(rng.choice([rng.uniform(100, 140), rng.uniform(100, 140), rng.uniform(140, 300)]))
         if rng.random() < 0.3:
             q['Plant Outlet Pressure'] = gen.fmt(rng.uniform(100, 3000))
         if rng.random() < 0.2:
